@@ -85,7 +85,7 @@ impl Check for C11e3 {
         let seed = j.get("sched_seed").and_then(|x| x.as_u64()).unwrap_or(0);
         let mut out = RunOut::default();
         let mut h = Hasher64::new();
-        let cfg = SimConfig { workers, reference: false, yield_gap, deliver: None, max_leaf: 1 };
+        let cfg = SimConfig { workers, reference: false, yield_gap, deliver: None, deliver_expect: 0, max_leaf: 1 };
         let results = match run_pipeline(&sc, &cfg, &Sched::Random(seed), k) {
             Ok(r) => r,
             Err(p) => {
